@@ -66,6 +66,8 @@ Section Tree.
   | TwoRatio (id : string) (l : L) (flows : list string) (ratios : A * A) (is_eq : bool).
 
   Record leafops := {
+    l_rows : L -> nat;                       (* 1 for every atomic device; a record of observed values may stand for a
+                                                multi-row unit (tie O: an adaptor compared with the standalone adaptor) *)
     l_n : L -> nat;
     l_bounds : L -> list (A * A);
     l_cost : L -> list A -> list A -> A;
@@ -82,7 +84,7 @@ Section Tree.
   (* shape = (rows, dlen) *)
   Fixpoint rows (d : gdev) : nat :=
     match d with
-    | Leaf _ _ => 1
+    | Leaf _ l => l_rows ops l
     | DSet _ ks _ | SubBal _ ks _ _ _ _ _ =>
         (fix go (ks : list gdev) : nat := match ks with [] => 0 | k :: ks' => (rows k + go ks')%nat end) ks
     | MF _ _ fl | TwoRatio _ _ fl _ _ => List.length fl
@@ -100,7 +102,7 @@ Section Tree.
     match ks with [] => [] | k :: ks' => (o, rows k) :: partition_from (o + rows k)%nat ks' end.
   Definition partition (d : gdev) : list (nat * nat) :=
     match d with
-    | Leaf _ _ => [(0, 1)]
+    | Leaf _ l => [(0, l_rows ops l)]
     | DSet _ ks _ | SubBal _ ks _ _ _ _ _ => partition_from 0 ks
     | MF _ _ fl | TwoRatio _ _ fl _ _ => map (fun i => (i, 1)) (seq 0 (List.length fl))
     end.
@@ -375,11 +377,11 @@ Section Tree.
 
   (* ---- the standard instance: leaves are the atomic devices of Model/Dev.v --------------------------- *)
   Definition std_ops : leafops (leafdev A) :=
-    {| l_n := @ld_n A; l_bounds := @ld_bounds A;
+    {| l_rows := fun _ => 1%nat; l_n := @ld_n A; l_bounds := @ld_bounds A;
        l_cost := leaf_cost; l_deriv := leaf_deriv; l_hess := leaf_hess; l_cons := leaf_cons;
        l_conduit := fun n b => Build_leafdev n b [] KDev |}.
   Definition dev := gdev (leafdev A).
-  Definition tree_rows (d : dev) : nat := rows _ d.
+  Definition tree_rows (d : dev) : nat := rows _ std_ops d.
   Definition tree_len (d : dev) : nat := dlen _ std_ops d.
   Definition tree_cost (d : dev) S P : A := gcost _ std_ops d S P.
   Definition tree_deriv (d : dev) S P : list (list A) := gderiv _ std_ops d S P.
